@@ -262,6 +262,16 @@ def body_history(case):
     if len(set(sizes)) < len(sizes):
         labels.add("repeated_size")
     bad = case.get("bad", [])
+    held = None
+    if case.get("int_first"):
+        # the object is first used in its OTHER call form: throw(N) with numbers from the global generator (scripted)
+        from ..rng_script import scripted
+
+        with scripted(np.full(4 * int(case["int_first"]) + 8, 0.37)):
+            with cut(f"throw({int(case['int_first'])}) [integer form, earlier use of the object]"):
+                shared.throw(int(case["int_first"]))
+                gc.snapshot_throw(shared, s_list, WITH_INTEGRAL)
+        labels.add("integer_form_first")
     for step, rows in enumerate(hist):
         u = np.array(rows, dtype=np.float64).T.copy()
         if step >= 1 and step - 1 < len(bad):
@@ -287,6 +297,29 @@ def body_history(case):
             again = gc.snapshot_throw(shared, s_list, WITH_INTEGRAL)  # reading is idempotent
         for key in a:
             require(again[key] == a[key], f"step {step} (batch sizes {sizes}): reading {key} a second time from the same throw gives another answer")
+        if case.get("shallow"):
+            # shallow copies (copy.copy - "keep this batch while I throw the next one"): a copy that holds an earlier batch
+            # still describes it after the original has thrown again, and a copy that throws does not disturb the original
+            import copy
+
+            if held is not None:
+                with cut("queries on a copy.copy made before the original threw again"):
+                    now_ = gc.snapshot_throw(held[0], s_list, WITH_INTEGRAL)
+                for key in held[1]:
+                    require(now_[key] == held[1][key], f"step {step}: {key} of a copy.copy of the geometry object (made while it held the previous batch) changed when the ORIGINAL threw its next batch (batch sizes {sizes})")
+            with cut("copy.copy of the thrown geometry object"):
+                clone = copy.copy(shared)
+                held = (clone, gc.snapshot_throw(clone, s_list, WITH_INTEGRAL))
+            for key in a:
+                require(held[1][key] == a[key], f"step {step}: {key} of a copy.copy differs from the object it was copied from")
+            with cut("a second copy.copy throws a same-sized batch of its own"):
+                clone2 = copy.copy(shared)
+                clone2.throw((u[:, ::-1] * 0.77 + 0.11).copy())
+                gc.snapshot_throw(clone2, s_list, WITH_INTEGRAL)
+                after_ = gc.snapshot_throw(shared, s_list, WITH_INTEGRAL)
+            for key in a:
+                require(after_[key] == a[key], f"step {step}: {key} of the geometry object changed when a copy.copy of it threw a batch of its own (batch sizes {sizes})")
+            labels.add("shallow_copies")
         with cut("throw on a fresh object"):
             fresh = RegionGeom(conf)
             fresh.throw(u.copy())
@@ -344,7 +377,7 @@ SUBCHECKS = [
     ),
     SubCheck(
         "history",
-        st.fixed_dictionaries({"cfg": gc.geom_config(), "batches": gc.batches(), "s": st.lists(dist, min_size=1, max_size=4), "bad": st.lists(st.sampled_from(gc.BAD_THROWS), max_size=3), "preempt": st.one_of(st.just([]), st.lists(st.one_of(st.integers(0, 40), st.integers(0, 300)), min_size=1, max_size=3))}),
+        st.fixed_dictionaries({"cfg": gc.geom_config(), "batches": gc.batches(), "s": st.lists(dist, min_size=1, max_size=4), "bad": st.lists(st.sampled_from(gc.BAD_THROWS), max_size=3), "shallow": st.booleans(), "int_first": st.sampled_from([None, None, 1, 7, 1000]), "preempt": st.one_of(st.just([]), st.lists(st.one_of(st.integers(0, 40), st.integers(0, 300)), min_size=1, max_size=3))}),
         body_history,
         lambda labels: "repeated_size" in labels and "kept" in labels,
         {"quick": 400, "thorough": 20000},
